@@ -19,7 +19,12 @@ pub enum Op {
     Feed { sender: String, msg: pf::ExecuteMsg },
     /// harness-level oracle move: price submitted with timestamp = now - back
     Oracle { price: u128, back: u64 },
-    Advance { blocks: u64, secs: u64 },
+    Advance {
+        blocks: u64,
+        secs: u64,
+        #[serde(default)]
+        nanos: u64,
+    },
     Send { from: String, to: String, amount: u128 },
     Allowance { owner: String, amount: u128 },
 }
@@ -151,8 +156,8 @@ pub fn apply(w: &mut World, op: &Op, armed: Option<u32>) -> TxOut {
             let ts = w.now().saturating_sub(*back);
             w.set_oracle(*price, ts)
         }
-        Op::Advance { blocks, secs } => {
-            w.advance(*blocks, *secs);
+        Op::Advance { blocks, secs, nanos } => {
+            w.advance_ns(*blocks, *secs, *nanos);
             TxOut {
                 ok: true,
                 err: None,
